@@ -146,7 +146,7 @@ fn expected(tx: &Transaction, inputs: &[(CoinID, CoinDataHeight)], last_header: 
             Some(o) => o,
             None => return (false, format!("input {}: covenant undecodable", i)),
         };
-        let env = RefEnv { parent_coinid: *id, parent_cdh: cdh.clone(), spender_index: i as u8, last_header };
+        let env = RefEnv { parent_coinid: *id, parent_cdh: cdh.clone(), spender_index: i as u64, last_header };
         let reference = eval_covenant(&ops, tx, Some(&env), 1_000_000);
         // second opinion: the real interpreter on the same (transaction, environment); C10 checks it against the reference in depth
         let real = Covenant::from_bytes(cov).ok().and_then(|c| {
@@ -169,6 +169,11 @@ enum CovList {
     MissingLast,
     Extra,
     WrongBytesSameLength,
+    /// another covenant listed twice in a row in front of the complete list (seed C04-r12-2: positions shift when a list of
+    /// covenant hashes is de-duplicated and then used to index the transaction's own list)
+    ForeignTwiceFirst,
+    /// every covenant of the list twice in a row
+    EachTwice,
 }
 
 #[derive(Clone, Copy, Debug, PartialEq)]
@@ -199,6 +204,11 @@ fn build_spend(fams: &[Family], fx: &Fixture, assign: &[(usize, usize)], covs: C
             cov_list.pop();
         }
         CovList::Extra => cov_list.push(cov_true_n(77).to_bytes()),
+        CovList::ForeignTwiceFirst => {
+            cov_list.insert(0, cov_true_n(78).to_bytes());
+            cov_list.insert(0, cov_true_n(78).to_bytes());
+        }
+        CovList::EachTwice => cov_list = cov_list.iter().flat_map(|c| [c.clone(), c.clone()]).collect(),
         CovList::WrongBytesSameLength => {
             let mut b = cov_list[0].to_vec();
             let l = b.len();
@@ -475,6 +485,69 @@ fn zero_valued_coins(run: &Run, fams: &[Family]) {
     }
 }
 
+/// Positions beyond 255: a transaction of 257 inputs whose last input (position 256) is a coin bound to a position, or a coin
+/// under the new-style signature covenant (signature expected in the slot of its position).  melvm shows a covenant its position
+/// in 8 bits; the statement says "its position among the inputs" (finding AE: position 256 was shown as 0).
+fn positions_beyond_255(run: &Run) {
+    let w = world_mel(NetID::Custom02, 10_000_000, 0);
+    let g = w.genesis.clone().seal(None);
+    let mut u = g.next_unsealed();
+    let at = |k: u64| Covenant::from_ops(&[OpCode::LoadImm(9), pi(k), OpCode::Eql]).to_bytes();
+    let sigcov = Covenant::std_ed25519_pk_new(key(1).0).to_bytes();
+    let mut outs1: Vec<_> = (0..254).map(|_| out_t(1, Denom::Mel)).collect();
+    outs1.push(out_t(10_000_000 - 254, Denom::Mel));
+    let fund1 = tx_t(TxKind::Normal, vec![CoinID::zero_zero()], outs1, 0, vec![1]);
+    let rest = 10_000_000 - 254 - 8;
+    let specials: Vec<(&str, bytes::Bytes)> = vec![("bound-to-position-0", at(0)), ("bound-to-position-1", at(1)), ("bound-to-position-255", at(255)), ("bound-to-position-256", at(256)), ("new-style-signature", sigcov.clone())];
+    let mut outs2: Vec<_> = vec![out_t(1, Denom::Mel), out_t(1, Denom::Mel), out_t(1, Denom::Mel)];
+    for (_, c) in &specials {
+        outs2.push(out(addr_of(c), 1, Denom::Mel));
+    }
+    outs2.push(out_t(rest, Denom::Mel));
+    let fund2 = tx_t(TxKind::Normal, vec![fund1.output_coinid(254)], outs2, 0, vec![2]);
+    if guard(|| u.apply_tx_batch(&[fund1.clone(), fund2.clone()])).map(|r| r.is_err()).unwrap_or(true) {
+        run.outcome("positions-beyond-255:funding-not-accepted");
+        return;
+    }
+    let s1 = u.seal(None);
+    let lh = s1.header();
+    let st = s1.next_unsealed();
+    let cdh = |t: &Transaction, i: usize| (t.output_coinid(i as u8), CoinDataHeight { coin_data: t.outputs[i].clone(), height: BlockHeight(1) });
+    let plain: Vec<(CoinID, CoinDataHeight)> = (0..254).map(|i| cdh(&fund1, i)).chain((0..3).map(|i| cdh(&fund2, i))).collect();
+    let true_cov = cov_true().to_bytes();
+    for (si, (name, cov)) in specials.iter().enumerate() {
+        let special = cdh(&fund2, 3 + si);
+        for pos in [0usize, 1, 255, 256] {
+            let mut inputs: Vec<(CoinID, CoinDataHeight)> = plain.iter().take(256).cloned().collect();
+            inputs.insert(pos, special.clone());
+            let total: u128 = inputs.iter().map(|x| x.1.coin_data.value.0).sum();
+            for sig_slot in if *name == "new-style-signature" { vec![Some(0usize), Some(pos), None] } else { vec![None] } {
+                let mut tx = mktx(TxKind::Normal, inputs.iter().map(|x| x.0).collect(), vec![out_t(total, Denom::Mel)], 0, vec![true_cov.clone(), cov.clone()], vec![]);
+                if let Some(slot) = sig_slot {
+                    let sig: bytes::Bytes = key(1).1.sign(&tx.hash_nosigs().0).into();
+                    tx.sigs = (0..=slot).map(|i| if i == slot { sig.clone() } else { bytes::Bytes::new() }).collect();
+                }
+                run.transition();
+                let (exp, why) = expected(&tx, &inputs, lh);
+                let mut s2 = st.clone();
+                let got = guard(|| s2.apply_tx(&tx));
+                run.validated();
+                let what = format!("257 inputs, the coin '{}' at position {}{}", name, pos, sig_slot.map(|s| format!(", signature in slot {}", s)).unwrap_or_default());
+                let replay = json!({"inputs": 257, "special": name, "position": pos, "signature_slot": sig_slot});
+                match got {
+                    Ok(Ok(())) if !exp => run.violation("C04", format!("spent-without-approval/position-beyond-255={}", pos > 255), format!("{}: accepted although {}", what, why), replay),
+                    // (sufficiency is stated for the standard signature covenants; a position the covenant environment cannot hold makes
+                    // the transaction ill-formed for the code - recorded, like every refusal that is not about the covenant)
+                    Ok(Err(e)) if exp => run.outcome(&format!("positions-beyond-255:approved-but-refused:{}:{}", if pos > 255 { "position>255" } else { "position<=255" }, e.to_string().split(':').next().unwrap_or("").chars().take(30).collect::<String>())),
+                    Ok(Ok(())) => run.outcome("positions-beyond-255:accepted-as-expected"),
+                    Ok(Err(_)) => run.outcome("positions-beyond-255:rejected-as-expected"),
+                    Err(_) => run.outcome("positions-beyond-255:panic(reported under C09)"),
+                }
+            }
+        }
+    }
+}
+
 /// Two spends in one batch (and in one block): A spends the first coin of a family and carries the covenant; B spends the family's
 /// second coin and carries the covenant, no covenant at all, or other bytes of the same length.  What A carries is A's: the batch
 /// is acceptable only if each transaction is approved by covenants *it* carries, in either order, as a batch and as a block.
@@ -556,7 +629,7 @@ pub fn run(run: &Run) {
     run.set("covenant_families", json!(fams.iter().map(|f| f.name).collect::<Vec<_>>()));
     run.set("input_assignments", json!(assigns.len()));
     run.set("fixtures", json!(fxs.iter().map(|f| f.label).collect::<Vec<_>>()));
-    let cov_variants = [CovList::Complete, CovList::MissingFirst, CovList::MissingLast, CovList::Extra, CovList::WrongBytesSameLength];
+    let cov_variants = [CovList::Complete, CovList::MissingFirst, CovList::MissingLast, CovList::Extra, CovList::WrongBytesSameLength, CovList::ForeignTwiceFirst, CovList::EachTwice];
     let sig_variants = [SigVariant::Valid, SigVariant::BitFlip, SigVariant::WrongKey, SigVariant::WrongSlot, SigVariant::SignedBeforeDataChange, SigVariant::None];
     for fx in &fxs {
         assigns.par_iter().for_each(|assign| {
@@ -572,7 +645,11 @@ pub fn run(run: &Run) {
                         if !has_hash && !right_data {
                             continue;
                         }
-                        if cv != CovList::Complete && (sv != SigVariant::Valid || !right_data) {
+                        let repeats = cv == CovList::ForeignTwiceFirst || cv == CovList::EachTwice;
+                        if cv != CovList::Complete && !repeats && (sv != SigVariant::Valid || !right_data) {
+                            continue;
+                        }
+                        if repeats && assign.len() > 2 {
                             continue;
                         }
                         let (tx, inputs) = build_spend(&fams, fx, assign, cv, sv, right_data, TxKind::Normal);
@@ -594,6 +671,7 @@ pub fn run(run: &Run) {
         });
     }
     companions_in_one_batch(run, &fams, &fxs);
+    positions_beyond_255(run);
     genesis_spends(run, &fams);
     large_header_readers(run);
     zero_valued_coins(run, &fams);
